@@ -92,6 +92,9 @@ type RWMutex struct {
 	mu      sync.RWMutex
 	writer  bool
 	readers int
+	// writersWaiting: as in the real RWMutex, a pending Lock blocks new readers
+	// (so a recursive RLock with a writer arriving in between deadlocks)
+	writersWaiting int
 }
 
 //go:norace
@@ -102,8 +105,12 @@ func (rw *RWMutex) simW() {
 	}
 	obj := uintptr(unsafe.Pointer(rw))
 	y(simhook.KLock, obj)
-	for rw.writer || rw.readers > 0 {
-		simhook.Block(obj)
+	if rw.writer || rw.readers > 0 {
+		rw.writersWaiting++
+		for rw.writer || rw.readers > 0 {
+			simhook.Block(obj)
+		}
+		rw.writersWaiting--
 	}
 	rw.writer = true
 }
@@ -116,7 +123,7 @@ func (rw *RWMutex) simR() {
 	}
 	obj := uintptr(unsafe.Pointer(rw))
 	y(simhook.KRLock, obj)
-	for rw.writer {
+	for rw.writer || rw.writersWaiting > 0 {
 		simhook.Block(obj)
 	}
 	rw.readers++
